@@ -289,6 +289,7 @@ type memListener struct {
 	// optional gates for forced schedules
 	acceptReturnGate *gate // Accept has dequeued a connection, waits before returning it
 	closeGate        *gate // Close waits before taking effect
+	tempAfterClose   bool  // after Close, Accept fails with a temporary error (an accept deadline in the past) instead of net.ErrClosed
 	holdAccepts      bool  // every dequeued connection waits at its own gate (appended to held)
 	held             []*gate
 	inAccept         int // Accept calls currently blocked in the select
@@ -332,7 +333,11 @@ func (l *memListener) Accept() (net.Conn, error) {
 	case <-l.closed:
 		l.mu.Lock()
 		l.inAccept--
+		temp := l.tempAfterClose
 		l.mu.Unlock()
+		if temp {
+			return nil, tempError{timeout: true}
+		}
 		return nil, net.ErrClosed
 	}
 }
